@@ -1,4 +1,6 @@
 import RjModel.Lemmas.DoerLemmas
+import RjModel.Lemmas.SyncLemmas
+import RjModel.Lemmas.FilteredListing
 import RjModel.Lemmas.LinkLemmas
 import RjModel.Lemmas.PlannerInv
 import RjModel.Generated.Walker
@@ -126,5 +128,20 @@ example :
     readLinkB (utf8 "a\\b/c".toList) = .notNormalized (utf8 "a\\b/c".toList) ∧
     readLinkB [0x63, 0x61, 0x66, 0xe9, 0x2f, 0x78] = .notNormalized [0x63, 0x61, 0x66, 0xe9, 0x2f, 0x78] := by
   decide
+
+/-- **Nothing is reached through a link in a whole run** (destination half, on the file-system model): for every
+destination tree — with symlinks to anything, anywhere — every source tree and every filter verdict, with the model's own
+(filtered) listings, the sync ends `ok` or `err` and never `escape`, the outcome the model gives whenever a call would make
+the kernel pass through a symlink inside the tree (an ancestor of the operated path, or its final component for the calls
+that follow).  Also when a deletion fails half-way. -/
+theorem C12_whole_run_never_through_a_link (keep : FPath → Bool) (S D : FS) (rs rd : FPath) (fS fD : Nat)
+    (hS : SrcTreeOk S rs fS) (hD : D.Wf)
+    (hroot : D.get rd = some .folder) (hanc : ∀ k, k < rd.length → D.get (rd.take k) = some .folder)
+    (hclosed : ∀ p, p ≠ [] → D.get (rd ++ p) ≠ none → D.get (rd ++ p.dropLast) = some .folder)
+    (hfuel : ∀ p, D.get (rd ++ p) ≠ none → p.length ≤ fD) :
+    syncDest D rd (srcOfFS S rs) (lsOfFSF keep S rs fS)
+      ((listNodesF keep rd D fD rd).map fun e => (e.1.drop rd.length, e.2)) ≠ .escape := by
+  rcases sync_never_escapes (destWF_of_listNodesF keep D hD rd hroot hanc hclosed fD hfuel) (srcWF_of_treeF keep S rs fS hS)
+    with ⟨fs', h⟩ | h <;> (rw [h]; intro e; cases e)
 
 end Rj.C12
